@@ -66,7 +66,7 @@ fn main() {
         ("gen", "C10") => c10::gen(&a),
         ("gen", "C16") => c16::gen(&a),
         ("gen", "C19") => c19::gen(&a),
-        ("gen", "VM") | ("gen", "C03") => vmrun::gen(&a),
+        ("gen", "VM") | ("gen", "C03") | ("gen", "C18") => vmrun::gen(&a),
         ("replay", "VM") => vmrun::replay(&a),
         ("gen", "C17") => c17::gen(&a),
         _ => { eprintln!("unknown command/property"); std::process::exit(2); }
